@@ -42,6 +42,8 @@ def _gen(rng, i=None):
         name, prog = 'tmpl:self_return', gen.tmpl_self_return(rng)
     elif k > 0.985:
         name, prog = 'tiny', gen.gen_tiny(rng, True)
+    elif k > 0.94:
+        name, prog = 'tmpl:nan_variants', gen.tmpl_nan_variants(rng, True)
     else:
         name, prog = gen.gen_case(rng, allow_input=True)
     if rng.random() < 0.35 and not name.startswith('tmpl:dispatch') and name != 'tiny':
